@@ -32,7 +32,16 @@ struct IUni {
 };
 
 std::string showV(long v) { return std::to_string(v); }
-std::string showV(const std::string &v) { return "'" + v; }
+// strings travel as `'text` with %XX escapes for bytes outside 0x21..0x7e and for `%` itself (so that NUL can be an operand)
+std::string showV(const std::string &v) {
+    static const char *d = "0123456789abcdef";
+    std::string r = "'";
+    for (unsigned char c : v) {
+        if (c < 0x21 || c > 0x7e || c == '%') { r += '%'; r += d[c >> 4]; r += d[c & 15]; }
+        else r += static_cast<char>(c);
+    }
+    return r;
+}
 std::string showV(double v) {
     double x = v * SCALE;
     if (std::nearbyint(x) != x || std::abs(x) > 9.0e15) return "INEXACT";
@@ -44,7 +53,14 @@ template<> long parseV<long>(const std::string &t) { return std::stol(t); }
 template<> double parseV<double>(const std::string &t) { return (double) std::stoll(t) / SCALE; }
 template<> std::string parseV<std::string>(const std::string &t) {
     if (t.empty() || t[0] != '\'') throw std::invalid_argument("str");
-    return t.substr(1);
+    std::string r;
+    for (size_t i = 1; i < t.size(); ++i) {
+        if (t[i] == '%' && i + 2 < t.size()) {
+            r += static_cast<char>(std::stoi(t.substr(i + 1, 2), nullptr, 16));
+            i += 2;
+        } else r += t[i];
+    }
+    return r;
 }
 
 // Eq = void selects the library's DEFAULT equality (the default template argument itself is part of what is checked)
@@ -106,7 +122,7 @@ struct Uni final : IUni {
                 case 0: obs = v; break;
                 case 1: obs = std::move(v); break;
                 default:
-                    if constexpr (std::is_same_v<T, std::string>) obs = v.c_str();
+                    if constexpr (std::is_same_v<T, std::string>) { if (v.find('\0') == std::string::npos) obs = v.c_str(); else obs = std::string(v); }
                     else if constexpr (std::is_integral_v<T>) obs = (double) v + (v >= 0 ? 0.25 : -0.25);
                     else obs = (long double) v + (long double) v * 1e-19L;
                     break;
@@ -132,10 +148,16 @@ struct Uni final : IUni {
         if constexpr (std::is_same_v<T, std::string>) {
             if (op == "add") {
                 std::string v = parseV<T>(t.at(1));
-                switch (nops % 3) {
+                if (v.size() == 1 && nops % 2 == 0) {
+                    // a single character is appended as a `char` (lvalue or rvalue): an integral operand of a non-integral value
+                    char c = v[0];
+                    if (nops % 4 == 0) obs += c; else obs += static_cast<char>(c);
+                } else switch (nops % 3) {
                     case 0: obs += v; break;
                     case 1: obs += std::string_view(v); break;
-                    default: obs += v.c_str(); break;
+                    default:
+                        if (v.find('\0') == std::string::npos) obs += v.c_str(); else obs += v;
+                        break;
                 }
                 return finish("-");
             }
@@ -147,10 +169,22 @@ struct Uni final : IUni {
             if (op == "add" || op == "sub" || op == "mul" || op == "div") {
                 T v = parseV<T>(t.at(1));
                 if (op == "div" && v == 0) return "!PRECOND";
-                if (op == "add") obs += v;
-                else if (op == "sub") obs -= v;
-                else if (op == "mul") obs *= v;
-                else obs /= v;
+                // the operand need not be a T: when another arithmetic type holds exactly the same number it is passed instead
+                auto with = [&](auto x) {
+                    if (op == "add") obs += x;
+                    else if (op == "sub") obs -= x;
+                    else if (op == "mul") obs *= x;
+                    else obs /= x;
+                };
+                if constexpr (std::is_integral_v<T>) {
+                    if (nops % 3 == 1 && v >= -30000 && v <= 30000) with(static_cast<short>(v));
+                    else if (nops % 3 == 2 && v >= 0 && v <= 255) with(static_cast<unsigned char>(v));
+                    else with(v);
+                } else {
+                    if (nops % 3 == 1 && std::nearbyint(v) == v && std::abs(v) < 1e9) with(static_cast<long>(v));
+                    else if (nops % 3 == 2 && static_cast<double>(static_cast<float>(v)) == v) with(static_cast<float>(v));
+                    else with(v);
+                }
                 return finish("-");
             }
         }
